@@ -1,25 +1,39 @@
 ----------------------------- MODULE Trace_Printf -----------------------------
-(* Validates sprintf calls recorded from the real interpreter (many calls in ONE *)
-(* run, so that the memoised format translation is exercised) against Printf.tla.*)
+(* Validates sprintf calls and print statements recorded from the real           *)
+(* interpreter (many in ONE run, so that the memoised format translation is      *)
+(* exercised) against Printf.tla.                                                 *)
 (*   {"ev":"step","fmt":bytes,"args":[{"tag","s","n":{"t","neg","d","x"}}],     *)
 (*    "chars":bool,"err":bool,"out":bytes,"k":call number}                        *)
+(*        tag "num" / "str" (a constant) / "strnum" (text the program read from   *)
+(*        its input) / "null" (an uninitialised variable)                          *)
+(*   {"ev":"print","args":[...],"of":OFMT text,"cf":CONVFMT text,                 *)
+(*    "mode":"default"|"csv"|"tsv","ofs":bytes,"out":bytes,"k":..}                *)
 (*   {"ev":"reset"}   a new interpreter / new trace                               *)
 (* The specification has no state here -- that the cache is invisible is exactly  *)
-(* what is checked: every call must be explained by Format alone.  A call whose   *)
-(* result the specification does not pin down (Unmodelled) is accepted.           *)
+(* what is checked: every call must be explained by Format alone, every print     *)
+(* line by PrintLine alone (whatever CONVFMT is and whatever was printed before). *)
+(* A call whose result the specification does not pin down (Unmodelled) is        *)
+(* accepted; with an argument of an open form (hex, inf/nan, NBSP) the result of  *)
+(* any dialect is.                                                                *)
 EXTENDS PrintfCases, TraceBase
 
 VARIABLES l
 vars == <<l>>
 Init == l = 1
 
-ArgV(a) == IF a.tag = "num" THEN VNum(MkNum(a.n.neg, a.n.d, a.n.x)) ELSE VStr(a.s)
+ArgV(a) == CASE a.tag = "num" -> VNum(MkNum(a.n.neg, a.n.d, a.n.x))
+             [] a.tag = "strnum" -> VStrnum(a.s)
+             [] a.tag = "null" -> VNull
+             [] OTHER -> VStr(a.s)
 ArgsOf(ev) == [j \in 1..Len(ev.args) |-> ArgV(ev.args[j])]
 
 Explains(ev, r) ==
   IF r.err THEN ev.err
   ELSE IF IsUnmStr(r.out) THEN TRUE
   ELSE ~ev.err /\ r.out = ev.out
+ExplainsSome(ev, r, args) ==
+  \/ Explains(ev, r)
+  \/ HasOpenArg(args) /\ \E dl \in Dialects : Explains(ev, FormatD(ev.fmt, args, ev.chars, Cf6, dl))
 
 \* the (single) directive of the format, for the failure signature
 DirOf(fmt) == LET sc == Scan(fmt)
@@ -30,22 +44,38 @@ Info(ev, r) ==
   LET d == DirOf(ev.fmt)
       args == ArgsOf(ev)
       v == IF args = <<>> THEN VNull ELSE args[Len(args)]
+      alts == FormatAlts(ev.fmt, args, ev.chars, Cf6)
   IN [fam |-> "d", fmt |-> ev.fmt, args |-> ev.args, chars |-> ev.chars, verb |-> d.verb,
       flags |-> FlagText(d.flags), wk |-> d.wk, pk |-> d.pk, ub |-> UbFlags(d),
       cn |-> PNumJ(IF d.verb \in IntVerbs \cup UnsVerbs \/ d.verb = c_c THEN IntArg(v) ELSE ToNum(v, GoawkDialect)),
       cs |-> (IF d.verb = c_s /\ ~IsUnmStr(ToStr(v, Cf6)) THEN ToStr(v, Cf6) ELSE <<>>),
+      isnum |-> ArgIsNumber(v, GoawkDialect), alts |-> {q \in alts : ~IsUnmStr(q.out)},
       err |-> r.err, out |-> r.out]
 
 TStep ==
   /\ l <= NLog /\ Log[l].ev = "step"
   /\ LET ev == Log[l]
-         r == Format(ev.fmt, ArgsOf(ev), ev.chars, Cf6)
-     IN IF Explains(ev, r)
+         args == ArgsOf(ev)
+         r == Format(ev.fmt, args, ev.chars, Cf6)
+     IN IF ExplainsSome(ev, r, args)
         THEN l' = l + 1
         ELSE /\ Reject(l, Info(ev, r))
              /\ l' = l + 1          \* the specification is stateless: the next call can still be judged
+\* a print statement: the line is PrintLine of the arguments under the OFMT in force -- CONVFMT is recorded
+\* but not used
+PInfo(ev, line) ==
+  [fam |-> "p", args |-> ev.args, of |-> ev.of, cf |-> ev.cf, mode |-> ev.mode, ofs |-> ev.ofs,
+   fraction |-> HasFraction(ArgsOf(ev)), defprec |-> (ev.of \in {<<PCT, c_g>>, <<PCT, C_G>>}), out |-> line]
+TPrint ==
+  /\ l <= NLog /\ Log[l].ev = "print"
+  /\ LET ev == Log[l]
+         line == PrintLine(ArgsOf(ev), ev.of, ev.mode, ev.ofs, <<LF>>)
+     IN IF IsUnmStr(line) \/ line = ev.out
+        THEN l' = l + 1
+        ELSE /\ Reject(l, PInfo(ev, line))
+             /\ l' = l + 1
 TReset == l <= NLog /\ Log[l].ev = "reset" /\ l' = l + 1
 TDone == l = NLog + 1 /\ PrintT("TRACE-END") /\ l' = l + 1
-Next == TStep \/ TReset \/ TDone
+Next == TStep \/ TPrint \/ TReset \/ TDone
 Spec == Init /\ [][Next]_vars
 =============================================================================
